@@ -54,6 +54,8 @@ CaseRe(pat, body, ft)  == [dflt |-> FALSE, re |-> TRUE, lit |-> <<>>, pat |-> pa
 CaseDflt(body, ft)     == [dflt |-> TRUE, re |-> FALSE, lit |-> <<>>, pat |-> NoRe, body |-> body, ft |-> ft]
 DeclAll == [k |-> "declall"]
 Prog(scope, tag, setup, ss) == [scope |-> scope, tag |-> tag, stmts |-> <<DeclAll>> \o setup \o ss]
+\* a program whose requirement is a LAW between result variables (their individual values are left open by the reference):
+\* tag "dual..." - the replayer does not compare b1 and b2 with the model but demands b1 = b2 at the end
 Opd(setup, e) == [setup |-> setup, e |-> e]        \* an operand: expression + the statements that prepare its variables
 
 A == <<"a">>
@@ -72,7 +74,7 @@ IntLefts == {<<Set("i1", "=", ILit(n))>> : n \in IntLeftN} \cup
               <<Set("i1", "=", ILit(1)), Set("i1", "<<=", ILit(63)), Set("i1", "^=", ILit(-1))>>,
               <<Set("i1", "=", ILit(-1)), Set("i1", "<<=", ILit(40))>>,
               <<Set("i1", "=", ILit(5)), Set("i1", "ror=", ILit(2))>> }
-IntRightN == {0, 1, 2, 3, 5, 63, 64, 65, -1, -3}
+IntRightN == {0, 1, 2, 3, 5, 63, 64, 65, 127, 128, -1, -3}
 IntRights == {Opd(<<>>, ILit(n)) : n \in IntRightN} \cup
              {Opd(<<Set("i2", "=", ILit(n))>>, Id("i2")) : n \in IntRightN} \cup
              {Opd(<<Set("i2", "=", ILit(n))>>, Neg(Id("i2"))) : n \in {0, 3, -1}} \cup
@@ -120,7 +122,26 @@ XRTimeCells == {Prog("recv", "rtime-x", <<Set("r1", "=", RLit(l)), Set("i2", "="
                   : l \in {1500, -2000, 90000}, op \in {"*=", "/="},
                     r \in {Opd(<<>>, FLit(n, 1)) : n \in {1, -1, 3, -3, 5, -5}} \cup {Opd(<<Set("f2", "=", FLit(n, 1))>>, Id("f2")) : n \in {1, -1, 3, -3, 5, -5}} \cup
                           {Opd(<<Set("i2", "=", ILit(n))>>, Id("i2")) : n \in {2, -3}}}
-CrossCells == XIntCells \cup XFloatCells \cup XRTimeCells
+\* RTIME comparisons with sub-second parts (incl. results of /=), every operator, literal and variable right operand
+SubSec == {500, 999, 1000, 1500, 2500, -1500}
+RTimeCmpCells ==
+  {Prog("recv", "rtime-cmp", <<Set("r1", "=", RLit(a))>> \o r.setup, <<Set("b1", "=", Grp(Cmp(op, Id("r1"), r.e)))>>)
+     : a \in SubSec, op \in {"==", "!=", "<", ">", "<=", ">="},
+       r \in {Opd(<<>>, RLit(b)) : b \in SubSec} \cup {Opd(<<Set("r2", "=", RLit(b))>>, Id("r2")) : b \in SubSec} \cup
+              {Opd(<<Set("r2", "=", RLit(1000)), Set("r2", "/=", ILit(2))>>, Id("r2")), Opd(<<Set("r2", "=", RLit(3000)), Set("r2", "/=", FLit(3, 1))>>, Id("r2"))}}
+\* DUALITY over mixed types: r op n and n dual(op) r must agree whatever resolution the comparison uses
+DualOp(op) == CASE op = "<" -> ">" [] op = ">" -> "<" [] op = "<=" -> ">=" [] op = ">=" -> "<="
+DualCells ==
+  {Prog("recv", "dual", <<Set("r1", "=", RLit(a))>> \o n.setup,
+        <<Set("b1", "=", Grp(Cmp(op, Id("r1"), n.e))), Set("b2", "=", Grp(Cmp(DualOp(op), n.e, Id("r1"))))>>)
+     : a \in SubSec \cup {2000, 0}, op \in {"<", ">", "<=", ">="},
+       n \in {Opd(<<Set("i1", "=", ILit(x))>>, Id("i1")) : x \in {0, 1, 2, 3, -1, -2}} \cup
+              {Opd(<<Set("f1", "=", FLit(x, 1))>>, Id("f1")) : x \in {1, 2, 3, 5, -3, 4}}} \cup
+  \* same-type controls of the same shape (here the values are compared as well)
+  {Prog("recv", "dual-same", <<Set("r1", "=", RLit(a)), Set("r2", "=", RLit(b))>>,
+        <<Set("b1", "=", Grp(Cmp(op, Id("r1"), Id("r2")))), Set("b2", "=", Grp(Cmp(DualOp(op), Id("r2"), Id("r1"))))>>)
+     : a \in SubSec, b \in SubSec, op \in {"<", ">", "<=", ">="}}
+CrossCells == XIntCells \cup XFloatCells \cup XRTimeCells \cup RTimeCmpCells \cup DualCells
 
 \* a prepared store on which conditions of every kind have a known value (computed by the evaluator, not assumed here)
 CondStore == << Set("b1", "=", BLit(TRUE)), Set("s1", "=", SLit(A)), Set("h1", "=", SLit(E)), Set("i1", "=", ILit(5)),
@@ -346,7 +367,7 @@ GInitial(u) == << Set("i1", "=", GIntLit(u)), Set("i2", "=", GIntLit(u)), Set("f
 (* state machine *)
 \* cells and shapes are enumerated family by family, so that TLC's workers share the evaluation
 OpOf(p) == p.stmts[Len(p.stmts)].op
-CellKeys == {<<"int", op>> : op \in IntOps} \cup {<<"float", op>> : op \in FloatOps} \cup {<<"rtime", "">>, <<"bool", "">>, <<"int-from-float", "">>, <<"int-x-float", "">>, <<"float-x-int", "">>, <<"rtime-x", "">>} \cup
+CellKeys == {<<"int", op>> : op \in IntOps} \cup {<<"float", op>> : op \in FloatOps} \cup {<<"rtime", "">>, <<"bool", "">>, <<"int-from-float", "">>, <<"int-x-float", "">>, <<"float-x-int", "">>, <<"rtime-x", "">>, <<"rtime-cmp", "">>, <<"dual", "">>, <<"dual-same", "">>} \cup
             {<<"str-local", op>> : op \in {"=", "+="}} \cup {<<"str-header", sc>> : sc \in Scopes} \cup {<<"unset", "">>, <<"log", "">>}
 CellFam(key) ==
   CASE key[1] = "int"        -> {p \in IntCells : p.tag = "int" /\ OpOf(p) = key[2]}
@@ -374,7 +395,11 @@ ObsSeq(x) == [i \in 1..Len(x) |-> Obs(x[i])]
 \* program runs inside a subroutine frame and exports its variables to headers before it returns)
 FinVal(v) == IF v.t \in {"BITS", "UNDECL"} THEN [t |-> "SKIP"] ELSE StrOp("=", NotSetV, v, TRUE)
 Fin(o) == IF Len(o) = 0 THEN [n \in Names |-> [t |-> "SKIP"]] ELSE [n \in Names |-> FinVal(o[Len(o)].S[n])]
-Emit(p, o) == PrintT(<<"BEHAVIOUR", ToJson([scope |-> p.scope, tag |-> p.tag, stmts |-> p.stmts, exp |-> o, fin |-> Fin(o)])>>)
+\* free: result variables whose value the reference leaves open; law: pairs of variables that must be equal at the end
+FreeOf(p) == IF p.tag = "dual" THEN <<"b1", "b2">> ELSE <<>>
+LawOf(p) == IF p.tag \in {"dual", "dual-same"} THEN << <<"b1", "b2">> >> ELSE <<>>
+Emit(p, o) == PrintT(<<"BEHAVIOUR", ToJson([scope |-> p.scope, tag |-> p.tag, stmts |-> p.stmts, exp |-> o, fin |-> Fin(o),
+                                            free |-> FreeOf(p), law |-> LawOf(p)])>>)
 
 VARIABLES phase,   \* "part" -> "emit" (cells / shapes) ; "start" -> "gen" -> "done" (sim)
           item,    \* a family key, a program, or the program under construction
@@ -410,5 +435,5 @@ EmitInv == /\ (phase = "emit") => Emit(item, ObsSeq(Expected(item)))
            /\ (phase = "done") => Emit(item, obs)
 
 \* the evaluator's own laws (duality of the comparison operators, !~ is the negation of ~), checked when TLC starts
-ASSUME LawsHold == Laws /\ ReLaws
+ASSUME LawsHold == Laws /\ ReLaws /\ ShiftLaws
 =============================================================================
